@@ -408,6 +408,11 @@ func interpCaseV(kind, pre string, data any, val string, post string) *Case {
 		src = `<p :title="v">t</p>`
 	case "vhtml":
 		src = `<div v-html="v"></div>`
+	case "vhtml-nested":
+		// the carrying element sits three levels deep: what the serialiser does to lay nested elements out must not reach into the value
+		src = `<article><section><div v-html="v"></div></section></article>`
+	case "vtext-nested":
+		src = `<article><section><pre v-text="v"></pre></section></article>`
 	case "tplvhtml":
 		// the documented <template v-html> form (the node is evaluated in place), followed by an interpolated sibling
 		src = `<div><template v-html="v"></template><p>` + pre + `{{ v }}` + post + `</p></div>`
@@ -440,7 +445,7 @@ func interpCaseV(kind, pre string, data any, val string, post string) *Case {
 	var p *html.Node
 	var find func(n *html.Node)
 	find = func(n *html.Node) {
-		if p == nil && n.Type == html.ElementNode && (n.Data == "p" || n.Data == "div") {
+		if p == nil && n.Type == html.ElementNode && (n.Data == "p" || n.Data == "div" || n.Data == "pre") {
 			p = n
 		}
 		for c := n.FirstChild; c != nil; c = c.NextSibling {
@@ -512,7 +517,38 @@ func interpCaseV(kind, pre string, data any, val string, post string) *Case {
 		} else if val != "" && !strings.Contains(res.Out, strings.TrimSpace(val)) {
 			v.OK, v.Class, v.Detail = false, "vhtml-not-verbatim:tplvhtml", fmt.Sprintf("value %q not found verbatim in %q", val, res.Out)
 		}
-	case "vhtml":
+	case "vtext-nested":
+		// the parsed <pre> holds the value as text, line breaks and indentation included (the parser drops one newline right after <pre>)
+		var pre *html.Node
+		var fp func(n *html.Node)
+		fp = func(n *html.Node) {
+			if pre == nil && n.Type == html.ElementNode && n.Data == "pre" {
+				pre = n
+			}
+			for c := n.FirstChild; c != nil; c = c.NextSibling {
+				fp(c)
+			}
+		}
+		for _, n := range nodes {
+			fp(n)
+		}
+		got := ""
+		if pre != nil {
+			for ch := pre.FirstChild; ch != nil; ch = ch.NextSibling {
+				if ch.Type == html.TextNode {
+					got += ch.Data
+				}
+			}
+		}
+		norm := func(x string) string { return strings.TrimPrefix(strings.ReplaceAll(x, "\r", ""), "\n") }
+		same := norm(got) == norm(val)
+		if !strings.Contains(strings.TrimSpace(val), "\n") {
+			same = same || strings.TrimSpace(got) == strings.TrimSpace(val) // one-line values: edge white space is the layout's
+		}
+		if pre == nil || (pre.FirstChild != nil && pre.FirstChild.NextSibling != nil) || !same {
+			v.OK, v.Class, v.Detail = false, "interp-text-value:vtext-nested", fmt.Sprintf("<pre v-text> text %q, expected %q; output %q", got, val, res.Out)
+		}
+	case "vhtml", "vhtml-nested":
 		if val != "" && !strings.Contains(res.Out, val) {
 			v.OK, v.Class, v.Detail = false, "vhtml-not-verbatim", fmt.Sprintf("value %q not found verbatim in %q", val, res.Out)
 			if strings.Contains(res.Out, strings.TrimSpace(val)) {
@@ -577,7 +613,9 @@ func runC02(r *Run, replay *Case) {
 	vals := append([]string{}, hostileStrings...)
 	nbs := []c01Nb{{"plain", "a ", " b"}, {"none", "", ""}, {"entity", "a &amp; b; ", " c"}, {"lt", "&lt;b&gt; ", " &lt;/b&gt;"}, {"quote", "say &quot;hi&quot; ", " &#39;x&#39;"}}
 	vals = append(vals, "</textarea><b>x</b>", "</title><meta name=x>", "Q&amp;A", "&lt;")
-	for _, kind := range []string{"text", "attr", "bound", "vhtml", "textarea", "title", "tplvhtml"} {
+	// values of several lines: their line breaks and the indentation of their continuation lines are part of the value
+	vals = append(vals, "<pre>if x {\n\treturn\n}</pre>", "line one\nline two\n  indented three", "<ul>\n<li>a</li>\n</ul>", "a\n\nb", "<textarea>x\ny</textarea>")
+	for _, kind := range []string{"text", "attr", "bound", "vhtml", "textarea", "title", "tplvhtml", "vhtml-nested", "vtext-nested"} {
 		for _, nb := range nbs {
 			for _, v := range vals {
 				r.Add(interpCase(kind, nb.pre, v, nb.post))
